@@ -108,6 +108,24 @@ def stores_to(E, fa, pred):
     return out
 
 
+def control_conditions(fa, def_blocks):
+    """Operands of the switches that decide which of several defining blocks of one value runs
+    (the value is then control-dependent on them: `match col { "1" => true, "0" => false }`)."""
+    def_blocks = set(def_blocks)
+    if len(def_blocks) < 2:
+        return []
+    out = []
+    for b in sorted(fa.live_blocks()):
+        t = fa.term(b)
+        if t["k"] != "switch":
+            continue
+        succ = list(t["targets"]) + [t["otherwise"]]
+        sets = [frozenset(fa.reachable(x, avoid={b}) & def_blocks) for x in succ if x is not None]
+        if len(set(sets)) > 1:
+            out.append(t["op"])
+    return out
+
+
 def back_slice(fa, op, terminal):
     """Backward data slice of an operand over every definition (moves, casts, references,
     aggregates, binary operations, call arguments). `terminal(block, call_term)` may return a
